@@ -28,6 +28,7 @@ func report(P *Prog, prop, tier string, results []*FuncResult, kf *KnownFile, ve
 	assumedPanics := map[string]bool{}
 	notes := map[string]bool{}
 	inlined := map[string]bool{}
+	assumedClauses := map[string]bool{}
 	bounded := []string{}
 	type viol struct {
 		o   *Obligation
@@ -50,6 +51,9 @@ func report(P *Prog, prop, tier string, results []*FuncResult, kf *KnownFile, ve
 		}
 		for _, n := range r.Inlined {
 			inlined[n] = true
+		}
+		for _, n := range r.AssumedClauses {
+			assumedClauses[n] = true
 		}
 		if r.Err != "" {
 			viols = append(viols, viol{nil, r, "contract of " + r.Key + " could not be checked: " + r.Err})
@@ -151,6 +155,7 @@ func report(P *Prog, prop, tier string, results []*FuncResult, kf *KnownFile, ve
 		"assumed_contracts":         keysOf(assumedContracts),
 		"assumed_unreachable_panics": keysOf(assumedPanics),
 		"inlined_callees":           keysOf(inlined),
+		"assumed_clauses":           keysOf(assumedClauses),
 		"unmodelled":                keysOf(notes),
 		"bounded":                   bounded,
 		"slow_obligations":          slow,
@@ -161,6 +166,9 @@ func report(P *Prog, prop, tier string, results []*FuncResult, kf *KnownFile, ve
 	ev.Assumptions = append(ev.Assumptions, lemmasFor(P, prop)...)
 	for k := range assumedContracts {
 		ev.Assumptions = append(ev.Assumptions, "assumed contract (trusted, body not verified): "+k)
+	}
+	for k := range assumedClauses {
+		ev.Assumptions = append(ev.Assumptions, "assumed postcondition (global invariant / dependency fact, not checked against the body): "+k)
 	}
 	for k := range assumedPanics {
 		ev.Assumptions = append(ev.Assumptions, "panic assumed unreachable under the global file-system invariant: "+k)
